@@ -268,6 +268,10 @@ func createParentMailboxesPerUser(db mailboxExecer, userID int64, name string) e
 			// (CREATE accepts such names as well)
 			continue
 		}
+		if strings.EqualFold(parentPath, "INBOX") {
+			// INBOX always exists and is case-insensitive
+			continue
+		}
 		exists, err := MailboxExistsPerUser(db, userID, parentPath)
 		if err != nil {
 			return err
